@@ -1,6 +1,7 @@
 package props
 
 import (
+	"encoding/binary"
 	"encoding/json"
 	"errors"
 	"fmt"
@@ -16,6 +17,7 @@ import (
 	"corebgpverif/harness"
 	"corebgpverif/vnet"
 	"corebgpverif/vrt"
+	"corebgpverif/wire"
 	"corebgpverif/world"
 )
 
@@ -82,6 +84,33 @@ func c20Expect(cf c20Cfg) (reject, judged bool, why string) {
 	return false, true, "usable configuration"
 }
 
+// c20AnnouncedID serves one passive peer with the given server and returns the BGP Identifier of the OPEN
+// it sends on an inbound connection.
+func c20AnnouncedID(srv *corebgp.Server) (id uint32, ok bool) {
+	e := vrt.Run(vrt.Config{Horizon: int64(20 * time.Second)}, func() {
+		w := world.New(libIP)
+		w.Server = srv
+		if err := srv.AddPeer(peerConfig(remIP, 65001, 65002), &world.Plugin{W: w, Peer: "P1"}, corebgp.WithPassive()); err != nil {
+			return
+		}
+		w.Serve(libAddr)
+		cn, err := w.NW.DialIn("10.0.0.2:40000", libAddr)
+		if err == nil {
+			r := w.NewRemote(cn, "P1")
+			r.Deadline(2 * time.Second)
+			if m, got := r.Expect(wire.TypeOpen); got && len(m.Body) >= 9 {
+				id, ok = binary.BigEndian.Uint32(m.Body[5:9]), true
+			}
+			r.C.Close()
+			r.Finish()
+		}
+		w.Close()
+		w.WaitServeDone()
+	})
+	e.Finish()
+	return
+}
+
 func c20Validation(c *harness.Ctx, idx *int) bool {
 	// NewServer: exactly IPv4 router ids
 	for _, k := range []string{"invalid", "v4", "v6", "v4in6"} {
@@ -89,13 +118,20 @@ func c20Validation(c *harness.Ctx, idx *int) bool {
 		if !c.Mine(*idx) {
 			continue
 		}
-		_, err := corebgp.NewServer(c20AddrKinds[k])
+		srv, err := corebgp.NewServer(c20AddrKinds[k])
 		c.Eval([]byte("router:"+k), true)
 		switch {
 		case k == "v4" && err != nil:
 			c.Violation("newserver-rejects-ipv4", "C20:validation:newserver-rejects-ipv4", "NewServer rejected an IPv4 router id: "+err.Error(), map[string]any{"router_id": k})
 		case (k == "invalid" || k == "v6") && err == nil:
 			c.Violation("newserver-accepts-non-ipv4", "C20:validation:newserver-accepts-non-ipv4", "NewServer accepted router id kind "+k, map[string]any{"router_id": k})
+		case (k == "v4" || k == "v4in6") && err == nil:
+			// whatever form of an IPv4 address is accepted, it is that address the server announces
+			// (whether the IPv4-mapped form is accepted at all is left open)
+			want := c20AddrKinds[k].Unmap().As4()
+			if id, ok := c20AnnouncedID(srv); ok && id != binary.BigEndian.Uint32(want[:]) {
+				c.Violation("router-id-not-announced", "C20:validation:router-id-not-announced", fmt.Sprintf("NewServer accepted router id %s but the OPEN carries BGP Identifier %s", c20AddrKinds[k], ip4(id)), map[string]any{"router_id": k})
+			}
 		}
 	}
 	ass := []uint32{0, 1, 65535, 65536, 0xffffffff}
